@@ -6,6 +6,7 @@
    1-out-of-2 OT under Fx/Fxk enters as the hypothesis [ot w c = pick w c]. *)
 From Coq Require Import ZArith NArith List Bool.
 From Mpc Require Import Gen.Consts Base.Codec Base.Label OT.Vole OT.VoleProof OT.Fx OT.FxProof OT.RunC20.
+From Mpc Require Import OT.Iknp OT.VoleHist OT.VoleHistProof.
 Import ListNotations.
 From Mpc Require Gen.State Base.StateExpected Base.StateCheck Base.StatePkgs.
 Open Scope Z_scope.
@@ -115,6 +116,48 @@ Theorem C20_iknp_chunks_total :
     Forall (fun br => 0 < br <= ot_chunkByteRows) (iknp_chunks fuel n).
 Proof. exact iknp_chunks_total. Qed.
 Print Assumptions C20_iknp_chunks_total.
+
+(* ---- a Sender/Receiver pair reused for a whole history of Mul calls ---- *)
+
+(* OT/VoleHist.v composes the executable IKNP model of ot/iknp.go (OT/Iknp.v,
+   property C06: column streams, createLabels, chunking, per-party stream
+   offsets that persist from call to call) with the exchange above; the IKNP
+   correlation is no longer a hypothesis.  Every pair of column stream
+   families g0 g1 (hence every base-OT outcome / AES key), every 128-bit
+   Delta, every label expansion, every common starting offset, EVERY HISTORY
+   of calls (any number; each call with its own vector length, 0 included,
+   its own modulus 0 < p <= 2^256, any integers x_i, y_i in [0, 2^256)): no
+   call fails, and every call returns vectors of the call's length with
+   entries in [0,p) such that (u_i - r_i) mod p = (x_i*y_i) mod p at every
+   position, the two messages being the 32-byte blocks of y resp. u. *)
+Theorem C20_vole_history :
+  forall (g0 g1 : nat -> nat -> N) (Delta : N) (expand : N -> N),
+    (Delta < 2 ^ 128)%N ->
+  forall (calls : list vcall) (p0 : nat),
+    Forall (fun c : vcall => let '(xs, ys, p) := c in
+              0 < p <= 2 ^ 256 /\ length ys = length xs /\ Forall (fun y => 0 <= y < 2 ^ 256) ys) calls ->
+    exists outs, vole_history g0 g1 Delta expand (p0, p0) calls = map VOk outs /\
+      Forall2 (fun (c : vcall) o => let '(xs, ys, p) := c in
+                 length (vo_rs o) = length xs /\ length (vo_us o) = length xs /\
+                 Forall (fun r => 0 <= r < p) (vo_rs o) /\ Forall (fun u => 0 <= u < p) (vo_us o) /\
+                 Forall3 (fun u r xy => (u - r) mod p = (fst xy * snd xy) mod p)
+                         (vo_us o) (vo_rs o) (combine xs ys) /\
+                 map set_bytes (blocks32 (length xs) (vo_yb o)) = ys /\
+                 map set_bytes (blocks32 (length xs) (vo_ub o)) = vo_us o) calls outs.
+Proof. exact vole_history_correct. Qed.
+Print Assumptions C20_vole_history.
+
+(* Same quantifiers: before every call of the history the sender's and the
+   receiver's key-stream offsets are equal (the pair never loses sync,
+   whatever the lengths of the earlier calls). *)
+Theorem C20_vole_history_lockstep :
+  forall (g0 g1 : nat -> nat -> N) (Delta : N) (expand : N -> N),
+    (Delta < 2 ^ 128)%N ->
+  forall (calls : list vcall) (p0 : nat),
+    Forall vcall_ok calls ->
+    Forall (fun st => fst st = snd st) (vole_offsets g0 g1 Delta expand (p0, p0) calls).
+Proof. exact vole_offsets_lockstep. Qed.
+Print Assumptions C20_vole_history_lockstep.
 
 (* ---- bit and string multiplication of the BMR player ---- *)
 
